@@ -22,6 +22,8 @@ CONSTANTS Procs,          \* contenders (live processes running the recovery loo
           DeadlineFails,  \* TRUE: the deadline may expire at any retry; FALSE: retries only (behaviour generation)
           AsImplemented,
           MayRelease,     \* BOOLEAN: a serving contender may shut down (Drop)
+          OrphanMetaKept,     \* TRUE (pinned commit): stale cleanup does nothing when lock.json is missing, even if the dead
+                              \* owner's meta.json is still there; FALSE: it removes that meta file and reports success
           CorruptIgnoresMeta  \* TRUE (pinned commit): corrupt cleanup gives up whenever meta.json exists;
                               \* FALSE: it gives up only if the meta's owner is alive, and removes a dead owner's meta
 
@@ -133,9 +135,11 @@ ReadLock(p) ==
 StaleCheck(p) ==
   /\ pc[p] = "s_check"
   /\ IF lock # AbsentF /\ lock[1] = "full" /\ lock[2] = exp[p]
-       THEN Goto(p, "s_rename") /\ UNCHANGED result            \* hook auth.stale.checked
-       ELSE Fail(p)                                            \* cleanup returned false -> Err
-  /\ UNCHANGED <<start, lock, meta, exp, holds, serving, retries, stolen>>
+       THEN Goto(p, "s_rename") /\ UNCHANGED <<result, meta, retries>>            \* hook auth.stale.checked
+       ELSE IF lock = AbsentF /\ ~OrphanMetaKept /\ meta = Meta(exp[p])
+         THEN meta' = AbsentF /\ Goto(p, "start") /\ UNCHANGED <<result, retries>>   \* orphan meta removed: cleaned
+         ELSE Fail(p) /\ UNCHANGED <<meta, retries>>                               \* cleanup returned false -> Err
+  /\ UNCHANGED <<start, lock, exp, holds, serving, stolen>>
 StaleRename(p) ==
   /\ pc[p] = "s_rename"
   /\ IF lock = AbsentF
